@@ -58,6 +58,14 @@ CLAIMED = {
          'fresh-interpreter parse of the flattened prefix. D17 is a recorded known finding.',
          BASE + 'The tokenizer and parser proper are outside this model (C02/C03 not yet built); location chains are read from the '
          'exception message; statements rendered one per line.'),
+ 'C17': ('Theorems proxy_reads_agree / fallback_agrees_off_slots / fallback_shadows_slots / fallback_loses_args about the attribute-lookup '
+         'protocol of the exception proxy (data descriptors of the type, instance dict, __getattr__); the real code is run on every '
+         'exception class of `builtins` that can be instantiated from a constructor-argument table (enumerated completely, incl. '
+         'exception groups and errno-selected OSError subclasses) and on user classes with required __init__/__new__ arguments, slots, '
+         'custom __str__ and properties, raised at depth 1-3 of configurable calls and during reference evaluation: class, catchability, '
+         'args, every public attribute, traceback and message suffix are compared with the original.',
+         BASE + 'Partial (thin model): class creation, C-level slots, with_traceback are CPython\'s; the model fixes only the lookup order; '
+         'everything observable is checked on the real code.'),
  'C18': ('Theorems singleton_stable / singleton_first_use / singletonUse_preserves / uses_return_cached (every history of uses from any '
          'threads) / singleton_cleared / operative_updates_commute, plus kernel-checked witnesses unlocked_race_exists and '
          'sequential_constructs_once for the check-then-act without the lock; tied to gin.config by running 2-4 real threads whose '
